@@ -30,7 +30,7 @@ type Variant struct {
 	Find     string `json:"find,omitempty"`
 	Replace  string `json:"replace,omitempty"`
 	Patch    string `json:"patch,omitempty"` // unified diff text (revert: applied with -R)
-	Expect   string `json:"expect"`          // caught | silent | accepted-miss
+	Expect   string `json:"expect"`          // caught | silent | accepted-miss | accepted-alarm
 	Rule     string `json:"rule,omitempty"`  // first reporting rule when filed
 	Note     string `json:"note,omitempty"`
 }
@@ -160,7 +160,7 @@ func runOne(self string, v Variant, knownFile string) Outcome {
 		o.OK = o.Observed == "caught"
 	case "silent":
 		o.OK = o.Observed == "silent"
-	default: // accepted-miss: documented limits, any verdict is recorded
+	default: // accepted-miss, accepted-alarm: documented limits, any verdict is recorded
 		o.OK = o.Observed != "error"
 	}
 	return o
